@@ -14,7 +14,7 @@ import (
 )
 
 // ghostFieldReg: "pkg.Type.field" -> declared ghost field
-var ghostFieldReg = map[string]bool{}
+var ghostFieldReg = map[string]string{} // "pkg.Type.field" -> "int" | "ref" | "seq"
 
 type Clause struct {
 	Kind string // requires ensures invariant decreases modifies assert panics_if ghost assume_stdlib
@@ -430,8 +430,13 @@ func parseContractFile(path string, pkg string, pc *PkgContracts) error {
 				pc.GhostFields[f[0]] = map[string]bool{}
 			}
 			pc.GhostFields[f[0]][f[1]] = true
-			ghostFieldReg[pkg+"."+f[0]+"."+f[1]] = true
+			ghostFieldReg[pkg+"."+f[0]+"."+f[1]] = "int"
+			if fs := strings.Fields(rest); len(fs) > 1 && fs[1] == "seq" {
+				// a ghost field holding an integer sequence (e.g. per-slot ghost state of a ring)
+				ghostFieldReg[pkg+"."+f[0]+"."+f[1]] = "seq"
+			}
 			if fs := strings.Fields(rest); len(fs) > 1 && fs[1] == "ref" {
+				ghostFieldReg[pkg+"."+f[0]+"."+f[1]] = "ref"
 				// a ghost field holding a reference: every stored value is nil or an allocated reference
 				heapHoldsRefs["P!"+pkg+"."+f[0]+"!.$"+f[1]] = true
 			}
